@@ -3,7 +3,7 @@
    PackedPrimitives::new (serialization.rs:99-107), Param::new / visit_params_with_bundling
    (functions.rs:102-158) and Counter (counts.rs).  Definitions only. *)
 Require Import Base Syntax Front.
-Require Import gen.CodeFacts.
+Require Import gen.CodeFacts gen.CounterFacts.
 Open Scope N_scope.
 
 Inductive ord := Less | Equal | Greater.
@@ -129,12 +129,18 @@ Record counts := mkCounts { nbi : N; nbo : N; noi : N; noo : N }.
 
 Definition n_objs (t : mty) : N := N.of_nat (List.length (objects_model t)).
 
-(* u8 `+=`: Debug panics on overflow, Release wraps *)
+(* The pinned upstream Counter: u8 `+=` (Debug panics on overflow, Release wraps) and
+   u8::try_from(x).unwrap(); no limit.  The repaired Counter (CounterFacts.counter_checked):
+   saturating additions followed by a check of every class against the 4-bit limit.  A
+   saturating u8 sum is at most the limit iff the exact sum is (saturation starts at 255), so
+   the repaired variant is modelled with exact arithmetic and the final check. *)
 Definition u8_add (md : mode) (a b : N) : outcome N :=
-  if a + b <? 256 then Ok (a + b)
+  if counter_checked then Ok (a + b)
+  else if a + b <? 256 then Ok (a + b)
   else match md with Debug => Reject RCountLimit | Release => Ok ((a + b) mod 256) end.
-(* u8::try_from(x).unwrap() *)
-Definition u8_try (x : N) : outcome N := if x <? 256 then Ok x else Reject RCountLimit.
+Definition u8_try (x : N) : outcome N :=
+  if counter_checked then Ok x else if x <? 256 then Ok x else Reject RCountLimit.
+Definition within_limit (c : N) : bool := negb counter_checked || (c <=? counter_limit).
 
 Record cstate := mkCS { cs : counts; hb_in : bool; hb_out : bool }.
 
@@ -182,7 +188,8 @@ Definition counter (md : mode) (ps : list mparam) : outcome counts :=
   let c := cs s in
   do bi <- u8_add md (nbi c) (if hb_in s then 1 else 0);
   do bo <- u8_add md (nbo c) (if hb_out s then 1 else 0);
-  Ok (mkCounts bi bo (noi c) (noo c)).
+  if within_limit bi && within_limit bo && within_limit (noi c) && within_limit (noo c)
+  then Ok (mkCounts bi bo (noi c) (noo c)) else Reject RCountLimit.
 
 (* ---- slot kinds the visitors emit per event (Appendix F of DESIGN.md) ---- *)
 
